@@ -33,4 +33,40 @@ theorem step_budget (k x dt : ℝ) (hden : 2 * k * (1 - x) + dt ≠ 0) (pi po in
     rw [ho, div_mul_cancel₀ _ hden]
   linarith [hmul]
 
+/-- the weight of the previous outflow is a contraction whenever `K(1−X) > 0` and `Δt > 0` (in particular in the whole stable region
+`2KX ≤ Δt ≤ 2K(1−X)`, `Δt > 0`); the divisor `2K(1−X)+Δt` is positive -/
+theorem a3_abs_lt_one (k x dt : ℝ) (hk : 0 < k * (1 - x)) (hdt : 0 < dt) : |(coef k x dt).a3| < 1 := by
+  rw [coef_eq]
+  simp only
+  have h2 : 2 * k * (1 - x) = 2 * (k * (1 - x)) := by ring
+  have hden : 0 < 2 * k * (1 - x) + dt := by rw [h2]; linarith
+  rw [abs_div, abs_of_pos hden, div_lt_one hden, abs_lt]
+  constructor <;> rw [h2] <;> linarith
+
+/-- recession: with no water entering the reach and nothing carried over on the inflow side, each step multiplies the outflow by `a3` -/
+theorem run_zero_tail (k x dt : ℝ) (n : ℕ) (o : ℝ) :
+    (run k x dt (0, o) (List.replicate n (0, 0))).1 = (0, (coef k x dt).a3 ^ n * o) := by
+  unfold run
+  induction n generalizing o with
+  | zero => simp [scan]
+  | succ n ih =>
+    have hs : (step (coef k x dt) (0, o) (0, 0)).1 = (0, (coef k x dt).a3 * o) := by
+      unfold step; simp
+    simp only [List.replicate_succ, scan]
+    rw [hs, ih, pow_succ, mul_assoc]
+
+/-- the state `n + 1` zero-inflow steps after a series `xs`: the first of them uses the carried-over inflow (`a2·I + a3·O`), the others
+only decay -/
+theorem run_event_tail_state (k x dt : ℝ) (st : ℝ × ℝ) (xs : List (ℝ × ℝ)) (n : ℕ) :
+    (run k x dt st (xs ++ List.replicate (n + 1) (0, 0))).1 =
+      (0, (coef k x dt).a3 ^ n * ((coef k x dt).a2 * (run k x dt st xs).1.1 + (coef k x dt).a3 * (run k x dt st xs).1.2)) := by
+  have h := run_zero_tail k x dt n ((coef k x dt).a2 * (run k x dt st xs).1.1 + (coef k x dt).a3 * (run k x dt st xs).1.2)
+  unfold run at h ⊢
+  rw [scan_append]
+  simp only [List.replicate_succ, scan]
+  have hs : (step (coef k x dt) (scan (step (coef k x dt)) st xs).1 (0, 0)).1 =
+      (0, (coef k x dt).a2 * (scan (step (coef k x dt)) st xs).1.1 + (coef k x dt).a3 * (scan (step (coef k x dt)) st xs).1.2) := by
+    unfold step; simp
+  rw [hs, h]
+
 end OW.Proofs.Muskingum
